@@ -7,6 +7,7 @@ from h5 import gen, lean, trees, wire
 
 ID = "C11"
 PROPS_MODULE = "H5.Props.C11"
+EXTRA_PROPS_MODULES = ["H5.Props.C11b"]
 GEN_MODULES = ["Constants"]
 CORRESPONDENCE_OPS = ["walk"]
 SOURCES = ["html5lib/treewalkers/base.py", "html5lib/treewalkers/etree.py", "html5lib/treewalkers/dom.py",
